@@ -153,3 +153,10 @@ Proof.
     + rewrite <- Hn. apply has_node_in. exact H1.
     + apply has_node_in. rewrite Hn. exact H1.
 Qed.
+
+(** the code as it was before repair c14a0f1 (kept in the model as [its_to_gml_old]): the context of the core export of
+    a full ITS contained the spectator atom, the two routes disagreed *)
+Example two_routes_old_disagree :
+  its_to_gml_old ex_full true false false <> its_to_gml (get_rc ex_full) true false false /\
+  its_to_gml ex_full true false false = its_to_gml (get_rc ex_full) false false false.
+Proof. split; [vm_compute; discriminate|reflexivity]. Qed.
